@@ -27,6 +27,7 @@ LD = np.longdouble
 RTOL = 1e-9
 
 META = {
+    'refill': True,      # point-set cases presented in a reused buffer are followed by a refill of that buffer (runner)
     'rule': ('cases = (a) point sets (12 curve families, random clouds, integer grids; C/F/strided-view/int64 '
              'layouts) x segment (a,b) in {curve chord, arbitrary off-curve, a == b, interior sub-chord with points '
              'beyond both ends, axis-parallel, integer, chord 1e-6..1e-11 of the extent}; x sub-ranges (l,r), l >= 0; (b) rectangles: integer '
@@ -564,6 +565,10 @@ def post_triangle_area(ctx, original, args, kwargs, result):
     if small_integers(p) and cross_exact(p[0], p[1], p[2]) == 0:
         ctx.check(res == 0.0, 'area:collinear', 'area:collinear',
                   f'triangle_area = {res!r} on a collinear integer triple', p=p, got=res)
+
+
+def refill_ok(case):
+    return case.get('kind') in ('dist', 'simplifier') and case.get('src') != 'large-int64'
 
 
 def setup(ctx, mods):
